@@ -282,7 +282,7 @@ pub fn predicate_paths() -> Vec<JPath> {
 
 pub fn syntax_literals() -> Vec<Expr> {
     let mut v = lits();
-    for f in [1.5, -0.5, 1e3, 0.25] {
+    for f in [1.5, -0.5, 1e3, 0.25, 2.0, -7.0, 1e19, -1e300] {
         v.push(Expr::Lit(Lit::Num(RNum::f(f))));
     }
     v.push(Expr::Lit(Lit::Str("".into())));
@@ -293,7 +293,7 @@ pub fn syntax_literals() -> Vec<Expr> {
 }
 
 pub fn syntax_index_steps() -> Vec<Step> {
-    let idxs = vec![Idx::N(0), Idx::N(7), Idx::N(2147483647), Idx::Last(0), Idx::Last(-1), Idx::Last(2), Idx::Last(-2147483647), Idx::Last(2147483647)];
+    let idxs = vec![Idx::N(0), Idx::N(7), Idx::N(3), Idx::N(2147483647), Idx::Last(0), Idx::Last(-1), Idx::Last(2), Idx::Last(-2147483647), Idx::Last(2147483647)];
     let mut out = vec![];
     for a in &idxs {
         out.push(Step::Indices(vec![AIdx::One(a.clone())]));
